@@ -27,3 +27,12 @@ Proof.
   destruct (c_end c - b <? c_start c + a); [reflexivity|].
   destruct (mk_range (c_start c + a) (c_end c - b)) as [r|e]; cbn [bind]; reflexivity.
 Qed.
+
+(* CdsSeq.ext_start: the first position of the extended coding sequence.  The model reads the head of the prefix positions with a default;
+   the source raises IndexError when there is a prefix without positions - equal whenever a prefix comes with its positions *)
+From VV Require Import Model.PyLoop Model.CodonsInRange.
+Theorem k_cds_ext_start_eq c : (c_prefix c = [] \/ c_prefix_pos c <> []) -> k_cds_ext_start c = Ok (ext_start c).
+Proof.
+  intros H. unfold k_cds_ext_start, ext_start. destruct (c_prefix c) as [|x p]; cbn [lempty negb bind]; [reflexivity|].
+  destruct H as [H|H]; [discriminate|]. destruct (c_prefix_pos c) as [|y l]; [now elim H|]. reflexivity.
+Qed.
